@@ -30,7 +30,7 @@ import itertools
 from ..da import analyse as da_analyse
 from ..kind import Skel, flatten_diff, short
 from ..lib import (evaluator, Decider, econd_summary, enum_member, rec_fields, show, walk, strip_casts,
-                   is_ext_call, fn_name, method_name, path_str, dep_names, ext_name, leaves, norm_src)
+                   is_ext_call, fn_name, method_name, path_str, dep_names, ext_name, leaves, norm_src, module_aliases)
 from ..spec import spec_term, Comparer
 from ..terms import T, sym, const, is_const, cval, NONE
 from ..model import AnalysisError
@@ -290,7 +290,7 @@ def other_layouts(ctx):
   for rank1 in (False, True):
     d = Decider(truth={'normalize_grads': False}, cmps={('weight_decay', '>', 0.0): False},
                 calls={('callable', 'learning_rate'): False},
-                extra=lambda c, rank1=rank1: (rank1 if (c.op == 'cmp' and c.args[0] in ('<', '==') and 'ndim' in show(c, maxdepth=4)) else None))
+                extra=lambda c, rank1=rank1: (rank1 if (c.op == 'cmp' and c.args[0] in ('<', '==') and is_const(c.args[2]) and 'ndim' in show(c.args[1], maxdepth=4)) else None))
     ev = evaluator(m, decide=d)
     P = sym('spec', 'param')
     s0 = ev.run(fi0, args={'param': P})
@@ -654,28 +654,60 @@ def _dtypes(ctx, fis):
 
 
 # ------------------------------------------------------------------ R5
+_SQUEEZE_FIXTURE = """
+import jax.numpy as xp
+def f(v):
+  a = xp.squeeze(v)
+  b = xp.squeeze(v, axis=0)
+  c = v.squeeze()
+  d = v.squeeze(0)
+  return a, b, c, d
+"""
+
+
+def _squeeze_sites(tree, aliases):
+  """(call node, has_axis) for every numpy-style or method-style squeeze in `tree`."""
+  out = []
+  for node in ast.walk(tree):
+    if not (isinstance(node, ast.Call) and isinstance(node.func, ast.Attribute) and node.func.attr == 'squeeze'):
+      continue
+    root = node.func.value
+    while isinstance(root, ast.Attribute):
+      root = root.value
+    dotted = aliases.get(root.id, '') if isinstance(root, ast.Name) else ''
+    is_module_fn = dotted.split('.')[0] in ('jax', 'numpy') and isinstance(node.func.value, (ast.Name, ast.Attribute)) and \
+        (isinstance(root, ast.Name) and root.id in aliases)
+    if is_module_fn:
+      has_axis = any(k.arg == 'axis' for k in node.keywords) or len(node.args) >= 2
+    else:
+      has_axis = any(k.arg == 'axis' for k in node.keywords) or len(node.args) >= 1
+    out.append((node, has_axis))
+  return out
+
+
 def squeeze_lint(ctx):
   m = ctx.model
+  # the rule must recognise all four spellings on a fixture, on every run
+  ft = ast.parse(_SQUEEZE_FIXTURE)
+  got = [h for _, h in _squeeze_sites(ft, module_aliases(ft))]
+  if got != [False, True, False, True]:
+    raise AnalysisError(f'squeeze lint does not recognise its fixture: {got}')
   n = 0
   for fq, fi in sorted(m.functions.items()):
     if any(fi.short == u or fi.short.startswith(u + '.') for u in UNREACHABLE):
       continue
     if fi.module.name.startswith('precondition.oco'):
       continue
-    for node in ast.walk(fi.node):
-      if isinstance(node, ast.Call):
-        fsrc = ast.unparse(node.func)
-        if fsrc.endswith('.squeeze') and fsrc.split('.')[0] in ('jnp', 'np', 'jax', 'numpy') or (fsrc.endswith('.squeeze') and not node.args and isinstance(node.func, ast.Attribute)):
-          own = _innermost(m, fi, node)
-          if own is not fi:
-            continue
-          has_axis = any(k.arg == 'axis' for k in node.keywords) or len(node.args) >= 2 or \
-              (fsrc.split('.')[0] not in ('jnp', 'np', 'jax', 'numpy') and len(node.args) >= 1)
-          n += 1
-          ctx.ob('C07.R5', fi.short, f'squeeze: {norm_src(node)[:80]}', has_axis,
-                 'axis-less squeeze also removes size-1 data dimensions (1x1 statistics collapse to 0-d and break the caller\'s slicing)',
-                 ctx.loc(fi, node), sample=norm_src(node)[:80])
-  ctx.need('C07.R5', n, 3, 'squeeze call sites')
+    al = module_aliases(fi.module.tree)
+    for node, has_axis in _squeeze_sites(fi.node, al):
+      own = _innermost(m, fi, node)
+      if own is not fi:
+        continue
+      n += 1
+      ctx.ob('C07.R5', fi.short, f'squeeze: {norm_src(node)[:80]}', has_axis,
+             'axis-less squeeze also removes size-1 data dimensions (1x1 statistics collapse to 0-d and break the caller\'s slicing)',
+             ctx.loc(fi, node), sample=norm_src(node)[:80])
+  ctx.need('C07.R5', n, 1, 'squeeze call sites')
   ctx.exclusions.append({k: v for k, v in UNREACHABLE.items()})
 
 
